@@ -170,8 +170,57 @@ def compress_jobs(info):
     return jobs
 
 
+def compressed_file_job(info):
+    """CompressedFile is a mutex around std::fstream: every method must forward to the fstream operation of the same
+       name with the same arguments and return its result (assumed fstream contract recorded by stubs)"""
+    src = '''#define VB_GHOST_AbstractFile int dummy;
+#include "blf.h"
+int vb_exc; int vb_caught;
+int z_op; struct vb_fstream *z_f; const char *z_s; int64_t z_n, z_off, z_pos, z_ret; int z_way, z_mode; _Bool z_b;
+int64_t vb_fstream_gcount(struct vb_fstream *f) { z_op = 1; z_f = f; return z_ret; }
+void vb_fstream_read(struct vb_fstream *f, char *s, int64_t n) { z_op = 2; z_f = f; z_s = s; z_n = n; }
+int64_t vb_fstream_tellg(struct vb_fstream *f) { z_op = 3; z_f = f; return z_ret; }
+void vb_fstream_seekg(struct vb_fstream *f, int64_t off, int way) { z_op = 4; z_f = f; z_off = off; z_way = way; }
+void vb_fstream_write(struct vb_fstream *f, const char *s, int64_t n) { z_op = 5; z_f = f; z_s = s; z_n = n; }
+int64_t vb_fstream_tellp(struct vb_fstream *f) { z_op = 6; z_f = f; return z_ret; }
+_Bool vb_fstream_good(struct vb_fstream *f) { z_op = 7; z_f = f; return z_b; }
+_Bool vb_fstream_eof(struct vb_fstream *f) { z_op = 8; z_f = f; return z_b; }
+void vb_fstream_open(struct vb_fstream *f, const char *name, int mode) { z_op = 9; z_f = f; z_s = name; z_mode = mode; }
+_Bool vb_fstream_is_open(struct vb_fstream *f) { z_op = 10; z_f = f; return z_b; }
+void vb_fstream_close(struct vb_fstream *f) { z_op = 11; z_f = f; }
+void vb_fstream_seekp(struct vb_fstream *f, int64_t pos) { z_op = 12; z_f = f; z_pos = pos; }
+void AbstractFile_ctor(struct AbstractFile *a) { } void AbstractFile_dtor(struct AbstractFile *a) { }
+#include "CompressedFile.c"
+void harness(void)
+{
+    struct CompressedFile c; char b[4]; int64_t n, off; int way, mode; { int64_t t; z_ret = t; _Bool u; z_b = u; }
+    __CPROVER_assert(CompressedFile_gcount(&c) == z_ret && z_op == 1 && z_f == &c.m_file, "C04/CompressedFile/gcount-forwards-to-the-fstream");
+    CompressedFile_read(&c, b, n);
+    __CPROVER_assert(z_op == 2 && z_f == &c.m_file && z_s == b && z_n == n, "C04/CompressedFile/read-forwards-pointer-and-count");
+    __CPROVER_assert(CompressedFile_tellg(&c) == z_ret && z_op == 3, "C04/CompressedFile/tellg-forwards");
+    CompressedFile_seekg(&c, off, way);
+    __CPROVER_assert(z_op == 4 && z_off == off && z_way == way, "C04/CompressedFile/seekg-forwards-offset-and-direction");
+    CompressedFile_write(&c, b, n);
+    __CPROVER_assert(z_op == 5 && z_s == b && z_n == n && z_f == &c.m_file, "C04/CompressedFile/write-forwards-pointer-and-count");
+    __CPROVER_assert(CompressedFile_tellp(&c) == z_ret && z_op == 6, "C04/CompressedFile/tellp-forwards");
+    __CPROVER_assert(CompressedFile_good(&c) == z_b && z_op == 7, "C04/CompressedFile/good-forwards");
+    __CPROVER_assert(CompressedFile_eof(&c) == z_b && z_op == 8, "C04/CompressedFile/eof-forwards");
+    CompressedFile_open(&c, b, mode);
+    __CPROVER_assert(z_op == 9 && z_s == b && z_mode == mode, "C04/CompressedFile/open-forwards-name-and-mode");
+    __CPROVER_assert(CompressedFile_is_open(&c) == z_b && z_op == 10, "C04/CompressedFile/is_open-forwards");
+    CompressedFile_seekp(&c, off);
+    __CPROVER_assert(z_op == 12 && z_pos == off, "C04/CompressedFile/seekp-forwards-the-position");
+    CompressedFile_close(&c);
+    __CPROVER_assert(z_op == 11 && z_f == &c.m_file, "C04/CompressedFile/close-forwards");
+    __CPROVER_assert(0, "canary");
+}
+'''
+    return core.Job('C04_CompressedFile_forwarding', src, route='harness', flags=['--bounds-check', '--pointer-check', '--signed-overflow-check', '--object-bits', '12'],
+                    functions=['CompressedFile::*'], canary_ids=['harness.assertion.13'], timeout=120)
+
+
 def extra(info):
-    return [stats_job(info), container_write_job(info)] + compress_jobs(info)
+    return [stats_job(info), container_write_job(info), compressed_file_job(info)] + compress_jobs(info)
 
 
 if __name__ == '__main__':
